@@ -21,6 +21,19 @@ Proof.
   - intros st0 Hn fuels. eapply C10_run_never_panics; eauto.
 Qed.
 
+(* ... and for a caller that keeps calling next() after ERROR items of every kind (driver errors, deviating
+   answers, failing virtual signals, evaluation errors of the program itself) and after None *)
+Theorem accepted_test_never_panics_through_errors : forall s p sigs0 tc,
+  parse s = Ok p -> wf_signals sigs0 -> with_signals p sigs0 = Ok tc ->
+  forall G DE (D : driver DE) w_default st0, try_new DE D tc = NewOk DE st0 ->
+  forall fuels : list nat, ~ run_panics_e tc G DE D w_default fuels st0.
+Proof.
+  intros s p sigs0 tc Hp Hs Hb G DE D w st0 Hn fuels.
+  assert (Hwf : wf_tc tc (length (p_signals p))).
+  { eapply C11_bound_is_wf; eauto. eapply parse_wf; eauto. }
+  eapply run_through_errors_never_panics; eauto.
+Qed.
+
 (* also after next() has returned None, and with any fuel at each call *)
 Theorem accepted_test_reachable_never_panics : forall s p sigs0 tc,
   parse s = Ok p -> wf_signals sigs0 -> with_signals p sigs0 = Ok tc ->
